@@ -8,7 +8,7 @@
     own list in the making uses; see C04_create_check_from), [served_ok] for pulls (honest, self-consistent registry),
     nothing for blob uploads, copies, deletes and start-up prunes.  [size_of] (content -> size) is arbitrary. *)
 From Coq Require Import List NArith Bool Permutation.
-From V Require Import Common.Bytes Store.Fs Store.Ops Store.ProofsAlist Store.ProofsNames Store.ProofsInv Store.ProofsOps Store.ProofsTop Store.ProofsMore.
+From V Require Import Common.Bytes Store.Fs Store.Ops Store.ProofsAlist Store.ProofsNames Store.ProofsInv Store.ProofsOps Store.ProofsTop Store.ProofsMore Store.ProofsFix Store.ProofsRedo Store.ProofsRedo2 Store.ProofsShow.
 Import ListNotations.
 Open Scope N_scope.
 
@@ -45,16 +45,17 @@ Proof.
 Qed.
 Print Assumptions C04_frame.
 
-(** Start-up pruning with every manifest readable leaves exactly the blobs some manifest uses (and no debris),
-    and does not touch the manifests. *)
+(** In a history of completed operations no manifest is ever unreadable, and start-up pruning leaves exactly the blobs
+    some manifest uses (and no debris), and does not touch the manifests. *)
 Theorem C04_prune_exact : forall size_of os,
   op_guards size_of empty_store os ->
   let s := exec_all size_of empty_store os in
-  has_unreadable s = false ->
+  has_unreadable s = false /\
   let s' := exec size_of s OStartup in
   debris s' = [] /\ mans s' = mans s /\ forall h, (exists c, bget h s' = Some c) <-> referenced_hex s' h = true.
 Proof.
-  intros size_of os Hg s Hu. apply (startup_exact size_of s); [apply exec_all_inv; [apply Inv_empty | exact Hg] | exact Hu].
+  intros size_of os Hg s. assert (Hu : has_unreadable s = false) by (apply (history_readable size_of), Hg).
+  split; [exact Hu|]. apply (startup_exact size_of s); [apply exec_all_inv; [apply Inv_empty | exact Hg] | exact Hu].
 Qed.
 Print Assumptions C04_prune_exact.
 
@@ -89,6 +90,33 @@ Proof.
 Qed.
 Print Assumptions C04_create_check_from.
 
+(** fixBlobs (server/fixblobs.go), first step of the start-up sequence.  A store as an older version left it — blob
+    files spelled "sha256:<hex>", old partial downloads, every layer of every readable manifest present under the old or
+    the new spelling and intact ([LInv]) — satisfies the invariant of the theorems above after fixBlobs alone and after
+    the whole start-up sequence, no file with the old spelling is left, and running fixBlobs again changes nothing.
+    Every store the API produces satisfies [LInv], and so does such a store after any of its blob files got the old name. *)
+Theorem C04_fixblobs_migrates : forall size_of s,
+  LInv size_of s ->
+  Inv size_of (rs (fix_blobs (init s))) /\ fixed (rs (fix_blobs (init s))) /\
+  Inv size_of (exec size_of s OStartup) /\ fixed (exec size_of s OStartup).
+Proof.
+  intros size_of s HL. split; [apply fix_blobs_migrates, HL|]. split; [apply fix_blobs_fixed|]. apply startup_migrates, HL.
+Qed.
+Print Assumptions C04_fixblobs_migrates.
+
+Theorem C04_fixblobs_idempotent : forall s,
+  rs (fix_blobs (init (rs (fix_blobs (init s))))) = rs (fix_blobs (init s)) /\
+  (fixed s -> fix_blobs (init s) = init s).
+Proof. intros s. split; [apply fix_blobs_idempotent | apply fix_blobs_noop]. Qed.
+Print Assumptions C04_fixblobs_idempotent.
+
+Theorem C04_legacy_stores : forall size_of os hs ps,
+  op_guards size_of empty_store os -> LInv size_of (legacy_move (exec_all size_of empty_store os) hs ps).
+Proof.
+  intros size_of os hs ps Hg. apply legacy_move_LInv, Inv_LInv. apply exec_all_inv; [apply Inv_empty | exact Hg].
+Qed.
+Print Assumptions C04_legacy_stores.
+
 (** ** Non-vacuity: a history with shared layers, a re-create in place, a case variant, a copy, a delete and a prune *)
 Definition ex_sz (c : N) : N := c + 10.
 Definition nm (m t : str) : name := MkName s_default_host s_default_ns m t.
@@ -113,6 +141,15 @@ Proof. vm_compute. repeat split. Qed.
 Example C04_example_nontrivial :
   let s := exec_all ex_sz empty_store ex_ops in
   length (mans s) = 3%nat /\ length (blobs s) = 11%nat /\ mget ex_A s = None /\ has_unreadable s = false.
+Proof. vm_compute. repeat split. Qed.
+
+(** an old-version store: the GGUF blob and a system layer carry the old name, an old partial download lies around;
+    two listed models miss their blobs until start-up has run *)
+Example C04_example_legacy :
+  let s := legacy_move (exec_all ex_sz empty_store ex_ops) [1; 3] [9] in
+  bget 1 s = None /\ referenced_hex s 1 = true /\ length (debris s) = 3%nat /\
+  let s' := exec ex_sz s OStartup in
+  bget 1 s' = Some 1 /\ bget 3 s' = Some 3 /\ debris s' = [] /\ length (blobs s') = 11%nat.
 Proof. vm_compute. repeat split. Qed.
 
 (** ** The defects of the unrepaired code, on its model *)
@@ -228,13 +265,20 @@ Proof.
 Qed.
 Print Assumptions C04_listed_showable_refuted.
 
-(** ... and holds for histories whose creates from files bring a model-type GGUF and whose pulls serve a manifest
-    with a model layer ([ops_have_model], decidable). *)
-Theorem C04_listed_showable_partial : forall size_of os,
-  op_guards size_of empty_store os -> ops_have_model os = true ->
-  forall n m, mget n (exec_all size_of empty_store os) = Some (Readable m) -> has_model_b m = true.
-Proof. intros size_of os. apply (showable_partial size_of). Qed.
+(** ... and every listed model can be shown — all layers and the config served (present, intact, right size), a model
+    layer among them, every layer content of the kind its media type promises — for histories whose creates from files
+    bring a model-type GGUF and whose pulls serve a manifest with a model layer ([ops_have_model]: exactly the complement
+    of the known finding), and whose requests carry well-formed contents ([ops_wf wf], for an arbitrary notion [wf mt c]
+    of "content c decodes as media type mt": the handlers decode the GGUF, parse the template and produce the JSON
+    themselves before they store a layer; a pull stores what the registry serves). *)
+Theorem C04_listed_showable_partial : forall size_of wf os,
+  op_guards size_of empty_store os -> ops_have_model os = true -> ops_wf wf os = true ->
+  let s := exec_all size_of empty_store os in
+  forall n m, mget n s = Some (Readable m) -> showable size_of wf s m.
+Proof. intros size_of wf os Hg Hm Hw s. apply (history_showable size_of wf os Hg Hm Hw). Qed.
 Print Assumptions C04_listed_showable_partial.
 
-Example C04_showable_partial_nonvacuous : ops_have_model ex_ops = true.
-Proof. reflexivity. Qed.
+Example C04_showable_partial_nonvacuous :
+  ops_have_model ex_ops = true /\ ops_wf (fun mt c => negb (c =? 99)) ex_ops = true /\
+  ops_wf (fun mt c => negb ((mt =? MT_TEMPLATE) && (c =? 4))) ex_ops = false.
+Proof. vm_compute. repeat split. Qed.
